@@ -51,6 +51,9 @@ CLAIMED = {
  "C19": ("type-directed taint over the client packages (private-key types and private-marshal results vs request/HTTP/multipart/header/logger/connection sinks), forward-flow check of marshalled private keys to WriteFile(0600), public-only provenance of submitted key text, dominance rules of the agent upsert, client/server agreement of key types via regexp/syntax",
          "In the client packages no private-key-typed value or marshalled private key reaches a network or log sink; marshalled private keys reach only 0600 file writes (and are never chmod-ed wider); submitted key text derives only from signer.Public(); the agent upsert removes same-comment certificates of any key type before adding; every key type the client generates is in the server's key-type alternation and meets its strength constants.",
          "The client is type-checked with CGO_ENABLED=0 (only third-party flynn/u2f/u2fhid fails); bytes on the wire and the OS agent are not observed.", "DESIGN.md §3 C19"),
+ "C20": ("dominance and value-identity rules tying each signing call to its publication and to every hand-out, reference enumeration of event publications, select/loop-exit analysis of the notifier fan-out, link-orientation agreement and retention-constant agreement in the event recorder",
+         "Every request-serving signing call is followed on its success path by a publication of the certificate's canonical bytes that dominates every response write / return of it; login, authentication and service-provider publications match the reference list; the notifier sends only in non-blocking selects, leaves the subscriber loop only at its end and buffers subscriber channels; the history loader links first-saved-as-newest with both links (agreeing with the newest-first saver) and uses the same retention constant as the expiry.",
+         "Delivery to a particular subscriber, goroutine ordering and file-system atomicity are not decided.", "DESIGN.md §3 C20"),
  "C12": ("dominance of the token-minting calls by the conjunction of code/client/expiry/redirect/type facts, decision-structure classification of the client-authentication flag, shape check of the PKCE verifier, store-provenance of token fields",
          "Both minting calls of the token endpoint are dominated on all paths by the verified code, client authentication, client==code.sub, strict expiry, equal redirect_uri and the code type; the authentication flag is true only from PKCE (secret-less client) or a non-empty secret; the PKCE verifier compares against the challenge decrypted from the same code; token/code/userinfo fields have the stated provenance (field-store analysis).",
          "Trusts go-jose and JSON encoding. Field provenance is judged per store into the token structs in the current source.", "DESIGN.md §3 C12"),
@@ -61,7 +64,7 @@ CLAIMED = {
          "Every profile/user-store accessor reachable from a service route has its user operand bound to the authenticated user, compared equal to it, or guarded by the administrator fact of its operation class, on every path; IsAdminUserAndU2F, IsAdminUser, the admin cache and automation-certificate minting have the required shape.",
          "Trusts go/types+go/ssa; directory content is out of scope. Operation classes (read / write / user administration) are a reviewed table keyed by handler.", "DESIGN.md §3 C08"),
 }
-NA_REASON = "check under construction (static rules described in DESIGN.md are being implemented)"
+NA_REASON = "not claimed"
 def main():
     props=[json.loads(l)["id"] for l in open("/verif/properties.jsonl")]
     checks=[]
